@@ -1,3 +1,185 @@
-import CLModel.Model.Primary
+import CLModel.Proofs.Primary
+import Mathlib.Tactic.Linarith
+import Mathlib.Tactic.NormNum
+/-!
+# C02 — Verifier accepts only proofs of possession of a valid credential
+
+What is proved here (for every group, key, request, nonce and proof — no size bounds):
+decision logic of acceptance, binding of the hashed transcript up to explicit SHA-256
+collisions (no idealisation of the hash), the bound on the response `ê` and why it is needed
+(the public-key-only forgery is *accepted by the core equation for every key* and rejected by
+the bound), and the special-soundness extraction identity of the equality sub-protocol.
+Unforgeability against every PPT adversary (strong RSA in the random-oracle model) is not a
+theorem of this development; see DESIGN §6.
+-/
 namespace CL.C02
+open CL CL.Pri
+
+variable {G : Type}
+
+/-- **decision logic**: an accepting verdict implies equal numbers of sub-proofs and requests,
+per-pair equality of the revealed and predicate sets with the request, and that the proof's
+challenge is the hash of the recomputed transcript `τ̂ ‖ c_list ‖ nonce`. -/
+theorem verify_accept_implies (H : List ByteArray → Int) (m : OvfMode) (common : List String)
+    (creds : List (VerCred G)) (p : Proof G) (nonce : ByteArray)
+    (h : verify H m common creds p nonce = .ok true) :
+    p.proofs.length = creds.length ∧ allPairsConsistent p.proofs creds = true ∧
+    ∃ taus bs, verifyLoop m common p.cHash p.proofs creds [] = .ok taus ∧
+      allBytes (taus ++ p.cList.map Item.bytes ++ [Item.bytes nonce]) = some bs ∧
+      H bs = p.cHash := by
+  unfold verify verifyTranscript at h
+  by_cases hl : p.proofs.length != creds.length
+  · simp [hl] at h
+  · by_cases hc : !allPairsConsistent p.proofs creds
+    · simp [hl, hc] at h
+    · simp only [hl, hc, Bool.false_eq_true, if_false] at h
+      cases hv : verifyLoop m common p.cHash p.proofs creds [] with
+      | ok taus =>
+        rw [hv] at h
+        simp only [Outcome.map_ok, Outcome.bind_ok] at h
+        cases hb : allBytes (taus ++ p.cList.map Item.bytes ++ [Item.bytes nonce]) with
+        | some bs =>
+          rw [hb] at h
+          simp only [Outcome.ok.injEq, beq_iff_eq] at h
+          refine ⟨by simpa using hl, by simpa using hc, taus, bs, rfl, hb, h⟩
+        | none => rw [hb] at h; simp at h
+      | err => rw [hv] at h; simp at h
+      | panic => rw [hv] at h; simp at h
+
+/-- **acceptance binds the transcript**: two accepted proofs carrying the same challenge whose
+recomputed transcripts differ exhibit a collision of the hash function. Every "value-changing
+alteration" of a hashed or hash-determining component that leaves `c_hash` alone is of this
+kind; an alteration of `c_hash` itself changes the value the hash must hit. -/
+theorem accept_binds_transcript (H : List ByteArray → Int) (m : OvfMode)
+    (common common' : List String) (creds creds' : List (VerCred G)) (p p' : Proof G)
+    (nonce nonce' : ByteArray)
+    (h : verify H m common creds p nonce = .ok true)
+    (h' : verify H m common' creds' p' nonce' = .ok true)
+    (hc : p.cHash = p'.cHash) :
+    ∀ bs bs', (∃ t, verifyLoop m common p.cHash p.proofs creds [] = .ok t ∧
+                allBytes (t ++ p.cList.map Item.bytes ++ [Item.bytes nonce]) = some bs) →
+              (∃ t, verifyLoop m common' p'.cHash p'.proofs creds' [] = .ok t ∧
+                allBytes (t ++ p'.cList.map Item.bytes ++ [Item.bytes nonce']) = some bs') →
+              bs ≠ bs' → ∃ x y, x ≠ y ∧ H x = H y := by
+  intro bs bs' ⟨t, ht, hb⟩ ⟨t', ht', hb'⟩ hne
+  obtain ⟨_, _, t1, b1, e1, e2, e3⟩ := verify_accept_implies H m common creds p nonce h
+  obtain ⟨_, _, t2, b2, f1, f2, f3⟩ := verify_accept_implies H m common' creds' p' nonce' h'
+  rw [ht] at e1; cases e1
+  rw [hb] at e2; cases e2
+  rw [ht'] at f1; cases f1
+  rw [hb'] at f2; cases f2
+  exact ⟨bs, bs', hne, by rw [e3, f3, hc]⟩
+
+/-- **the response for `e` is bounded** in every accepted equality proof -/
+theorem e_response_bounded (o : GroupOps G) (pk : PubKey G) (p : EqProof G) (c : Int)
+    (un : List String) (t : G) (h : verifyEquality o pk p c un = .ok t) :
+    0 ≤ p.e ∧ p.e < 2 ^ (Gen.LARGE_ETILDE + 1) := by
+  unfold verifyEquality at h
+  by_cases hb : p.e < 0 ∨ p.e ≥ 2 ^ (Gen.LARGE_ETILDE + 1)
+  · simp [hb] at h
+  · omega
+
+/-- **public-key-only forgery is rejected**: the response `ê = c·(1 − 2^596)` of the forgery
+that sets `A' := Z / Π_rev R^m` (unit exponent `e = 1`) is negative for every challenge
+`c > 0`, hence outside the allowed range — for every key, request and choice of the other
+responses. -/
+theorem forge_unit_e_rejected (o : GroupOps G) (pk : PubKey G) (p : EqProof G) (c : Int)
+    (un : List String) (hc : 0 < c) (he : p.e = c * (1 - 2 ^ Gen.largeEStartValueExp)) :
+    verifyEquality o pk p c un = .err := by
+  have hpow : (2 : Int) ^ Gen.largeEStartValueExp ≥ 2 := by
+    have : Gen.largeEStartValueExp = 596 := rfl
+    rw [this]
+    exact le_trans (by norm_num) (pow_le_pow_right₀ (by norm_num : (1 : Int) ≤ 2) (by norm_num : 1 ≤ 596))
+  have hneg : p.e < 0 := by
+    rw [he]
+    have : (1 : Int) - 2 ^ Gen.largeEStartValueExp < 0 := by
+      generalize (2 : Int) ^ Gen.largeEStartValueExp = X at *
+      linarith
+    exact mul_neg_of_pos_of_neg hc this
+  simp [verifyEquality, hneg]
+
+/-- more generally any forged signature with an exponent `e < 2^596 − 2^201`-ish small enough
+that `e' = e − 2^596` is hugely negative is rejected: if `ê = c·e' + ẽ` with `ẽ < 2^456`,
+`c ≥ 1` and `e' ≤ −2^456`, then `ê < 0`. -/
+theorem forge_small_e_rejected (o : GroupOps G) (pk : PubKey G) (p : EqProof G) (c : Int)
+    (un : List String) (e' eTilde : Int) (hc : 1 ≤ c) (he' : e' ≤ -(2 ^ 456)) (ht : eTilde < 2 ^ 456)
+    (he : p.e = c * e' + eTilde) : verifyEquality o pk p c un = .err := by
+  have h1 : c * e' ≤ 1 * e' := by
+    have : e' ≤ 0 := le_trans he' (by simp)
+    exact mul_le_mul_of_nonpos_right hc this
+  have hneg : p.e < 0 := by rw [he]; linarith
+  simp [verifyEquality, hneg]
+
+section algebra
+variable {A : Type} [AddCommGroup A] [DecidableEq A] (enc : A → ByteArray)
+
+/-- **why the bound is needed** (machine-checked description of the repaired defect): without
+the range check the forgery verifies for *every* key. With `A' := Z − Σ_rev m•R`, arbitrary
+`v̂, m̂, m̂₂` and `ê := c·(1 − 2^596)`, the core equation returns exactly the first message
+`T = v̂•S + Σ m̂•R + m̂₂•Rctxt` the forger can compute from public data before hashing. -/
+theorem forge_unit_e_core_accepts (pk : PubKey A) (un rev : List String) (rf : String → A)
+    (mhat val : String → ℤ) (vhat m2hat c : ℤ)
+    (hr : Maps pk.r (un ++ rev) rf) :
+    let a' := pk.z - (rev.map fun k => val k • rf k).sum
+    let p : EqProof A := ⟨rev.map (fun k => (k, val k)), a', c * (1 - 2 ^ Gen.largeEStartValueExp),
+      vhat, un.map (fun k => (k, mhat k)), m2hat⟩
+    verifyEqualityCore (addOps enc) pk p c un
+      = .ok (m2hat • pk.rctxt + (vhat • pk.s + (un.map fun k => mhat k • rf k).sum)) := by
+  intro a' p
+  have hun : ∀ k ∈ un, k ∈ un ++ rev := fun k hk => by simp [hk]
+  have hrev : ∀ k ∈ rev, k ∈ un ++ rev := fun k hk => by simp [hk]
+  simp only [verifyEqualityCore, p,
+    calcTeq_value enc pk _ _ _ _ _ un rf _ (hr.mono hun) (maps_map_self mhat un),
+    Outcome.bind_ok, addOps_pow, keys_map_self,
+    mulPows_sum enc pk.r _ rf val rev _ (hr.mono hrev) (maps_map_self val rev), addOps_inv,
+    addOps_mul]
+  congr 1
+  simp only [a']
+  module
+
+/-- **special soundness of the equality sub-protocol (extraction identity)**: two transcripts
+with the same `A'`, the same revealed values and the same first message `T`, accepted by the
+core equation under challenges `c`, `c'`, satisfy
+`Δc • (Z − Σ_rev m•R − 2^596•A') = Δê•A' + Δv̂•S + Σ Δm̂•R + Δm̂₂•Rctxt`.
+If the group has no `Δc`-torsion issue and `Δc` divides the response differences (the step
+where the strong-RSA assumption enters; not proved here), dividing by `Δc` yields a valid CL
+signature `(A', e, v)` on the revealed values and the extracted hidden ones. -/
+theorem eq_special_soundness (pk : PubKey A) (un rev : List String) (rf : String → A)
+    (val : String → ℤ) (a' : A) (e₁ v₁ m2₁ c₁ e₂ v₂ m2₂ c₂ : ℤ) (mh₁ mh₂ : String → ℤ) (T : A)
+    (hr : Maps pk.r (un ++ rev) rf)
+    (h₁ : verifyEqualityCore (addOps enc) pk
+      ⟨rev.map (fun k => (k, val k)), a', e₁, v₁, un.map (fun k => (k, mh₁ k)), m2₁⟩ c₁ un = .ok T)
+    (h₂ : verifyEqualityCore (addOps enc) pk
+      ⟨rev.map (fun k => (k, val k)), a', e₂, v₂, un.map (fun k => (k, mh₂ k)), m2₂⟩ c₂ un = .ok T) :
+    (c₁ - c₂) • (pk.z - (rev.map fun k => val k • rf k).sum - (2 : ℤ) ^ Gen.largeEStartValueExp • a')
+      = (e₁ - e₂) • a' + (v₁ - v₂) • pk.s
+        + ((un.map fun k => mh₁ k • rf k).sum - (un.map fun k => mh₂ k • rf k).sum)
+        + (m2₁ - m2₂) • pk.rctxt := by
+  have hun : ∀ k ∈ un, k ∈ un ++ rev := fun k hk => by simp [hk]
+  have hrev : ∀ k ∈ rev, k ∈ un ++ rev := fun k hk => by simp [hk]
+  simp only [verifyEqualityCore,
+    calcTeq_value enc pk _ _ _ _ _ un rf _ (hr.mono hun) (maps_map_self _ un),
+    Outcome.bind_ok, addOps_pow, keys_map_self,
+    mulPows_sum enc pk.r _ rf val rev _ (hr.mono hrev) (maps_map_self val rev), addOps_inv,
+    addOps_mul, Outcome.ok.injEq] at h₁ h₂
+  have h := h₁.trans h₂.symm
+  -- both sides equal T: subtract and regroup
+  have key : ∀ (X Y : A), X = Y → X - Y = 0 := fun X Y e => by rw [e, sub_self]
+  have h0 := key _ _ h
+  have h0' := congrArg (fun x => -x) h0
+  simp only [neg_zero] at h0'
+  rw [← sub_eq_zero, ← h0']
+  module
+
+end algebra
+
+/-! non-vacuity -/
+example : (0 : ℤ) < 5 ∧ (5 : ℤ) * (1 - 2 ^ Gen.largeEStartValueExp) < 0 := by
+  refine ⟨by norm_num, ?_⟩
+  have : Gen.largeEStartValueExp = 596 := rfl
+  rw [this]
+  have : (2 : ℤ) ^ 596 ≥ 2 := le_trans (by norm_num) (pow_le_pow_right₀ (by norm_num : (1 : ℤ) ≤ 2) (by norm_num : 1 ≤ 596))
+  generalize (2 : ℤ) ^ 596 = X at *
+  linarith
+
 end CL.C02
